@@ -283,19 +283,16 @@ GRID_VALUES = {
     "dotted-empty-segment": "a..b",
     "plus": "+",
 }
-GRID_CHANNELS = ["argv", "argv-space", "config", "object", "env"]
+GRID_CHANNELS = ["argv", "argv-space", "config", "object", "env", "sub-argv", "sub-env", "sub-config", "sub-unknown-option"]
 
 
-def _grid_parser(exit_on_error):
+def _add_typed_options(p):
     from typing import Any, Callable, Dict, List, Optional, Tuple, Type, Union
 
-    from jsonargparse import ActionConfigFile, ArgumentParser
     from jsonargparse.typing import Path_fr
 
     from ..fixtures import Base, Color, Req
 
-    p = ArgumentParser(exit_on_error=exit_on_error, prog="app")
-    p.add_argument("--cfg", action=ActionConfigFile)
     p.add_argument("--int", type=int, default=0)
     p.add_argument("--list", type=List[int], default=[])
     p.add_argument("--dict", type=Dict[str, int], default={})
@@ -308,6 +305,22 @@ def _grid_parser(exit_on_error):
     p.add_argument("--optdc", type=Optional[Req], default=None)
     p.add_argument("--union", type=Union[int, List[Base], None], default=None)
     p.add_argument("--tuple", type=Tuple[int, Base], default=None)
+
+
+def _grid_parser(exit_on_error, with_subcommands=False):
+    from jsonargparse import ActionConfigFile, ArgumentParser
+
+    p = ArgumentParser(exit_on_error=exit_on_error, prog="app")
+    p.add_argument("--cfg", action=ActionConfigFile)
+    _add_typed_options(p)
+    if with_subcommands:
+        # sub-parsers are created the way auto_cli creates them: without repeating the parent's settings
+        run = ArgumentParser()
+        _add_typed_options(run)
+        other = ArgumentParser()
+        sc = p.add_subcommands()
+        sc.add_subcommand("run", run)
+        sc.add_subcommand("other", other)
     return p
 
 
@@ -320,7 +333,15 @@ def _grid_once(tname, vname, channel, eoe):
     env_name = "APP_" + dest.upper()
 
     def run():
-        p = _grid_parser(eoe)
+        p = _grid_parser(eoe, with_subcommands=channel.startswith("sub-"))
+        if channel == "sub-argv":
+            return p.parse_args(["run", f"{opt}={value}"])
+        if channel == "sub-env":
+            return p.parse_env({"APP_SUBCOMMAND": "run", "APP_RUN__" + dest.upper(): value})
+        if channel == "sub-config":
+            return p.parse_args(["--cfg", _json.dumps({"run": {dest: value}})])
+        if channel == "sub-unknown-option":
+            return p.parse_args(["run", f"--no_such_option={value}"])
         if channel == "argv":
             return p.parse_args([f"{opt}={value}"])
         if channel == "argv-space":
@@ -333,7 +354,7 @@ def _grid_once(tname, vname, channel, eoe):
             return p.parse_env({env_name: value})
         raise RuntimeError(channel)
 
-    if channel == "env" and "\x00" in value:
+    if channel in ("env", "sub-env") and "\x00" in value:
         return None  # not a legal environment value
     kind, detail = _outcome(run, eoe)
     S.note(kind)
